@@ -122,6 +122,18 @@ Theorem C11_step_remove_virtual : forall legacy aa fd prev car fo' kv, wf_dict f
     fg_keys (fo_fgs fo) = filter (notkv kv) (fg_keys (fo_fgs fo')) /\
     (forall g, In (kv, g) (fo_fgs fo') -> node_keys g = []).
 Proof. exact step_remove_virtual. Qed.
+(** the converse, hence both directions: under the same hypotheses the step with the virtual node returns iff the step without
+    it returns (then with the results related as in C11_step_remove_virtual) *)
+Theorem C11_step_insert_virtual : forall legacy aa fd prev car fo kv, wf_dict fd -> wf_attrs fd -> NoDup (node_keys prev) ->
+  get_node_attributes prev (S "atomname") = [] -> vnode fd kv prev ->
+  resolve_step_full legacy aa fd (remove_node prev kv) car = Ok fo ->
+  exists fo', resolve_step_full legacy aa fd prev car = Ok fo'.
+Proof. exact step_insert_virtual. Qed.
+Theorem C11_step_virtual_iff : forall legacy aa fd prev car kv, wf_dict fd -> wf_attrs fd -> NoDup (node_keys prev) ->
+  get_node_attributes prev (S "atomname") = [] -> vnode fd kv prev ->
+  ((exists fo', resolve_step_full legacy aa fd prev car = Ok fo') <->
+   (exists fo, resolve_step_full legacy aa fd (remove_node prev kv) car = Ok fo)).
+Proof. exact step_virtual_iff. Qed.
 (** non-vacuity: {[#V].[#A][#B]} with V = node 0 satisfies every hypothesis (the step returns: C11_step_nonvacuous) *)
 Example C11_step_remove_virtual_nonvacuous :
   wf_dict fd_AB /\ NoDup (node_keys base_VAB) /\ get_node_attributes base_VAB (S "atomname") = [] /\ vnode fd_AB 0 base_VAB /\
@@ -172,3 +184,5 @@ Print Assumptions C11_edges_after_remove_node.
 Print Assumptions C11_disconnected_remove.
 Print Assumptions C11_bonding_remove.
 Print Assumptions C11_step_remove_virtual.
+Print Assumptions C11_step_insert_virtual.
+Print Assumptions C11_step_virtual_iff.
